@@ -164,6 +164,25 @@ def run(ctx):  # noqa: C901, PLR0912, PLR0915
         else:
             ctx.ob('C11.R3', f'{m} delegates', any(x and x.startswith('remove_object') for x in names),
                    f'{m} delegates to another removal method', fi=fi)
+    # a multi-valued index reports exactly the keys it stored under (one per stored entry): the back references that
+    # _rm_indices removes later are built from the returned list
+    for q_, fi_ in sorted(repo.funcs.items()):
+        if not (q_.startswith('sdc11073.multikey.') and fi_.name == 'mk_keys'):
+            continue
+        loops_ = [lp for lp in walk_no_nested(fi_.node) if isinstance(lp, ast.For) and any(
+            isinstance(x, ast.Subscript) and unparse(x.value) == 'self' for b in lp.body for x in ast.walk(b))]
+        if not loops_:
+            continue
+        g_ = cfg_of(fi_)
+        rets_ = [r for r in g_.nodes if r.kind == 'return' and r.stmt.value is not None and
+                 not (isinstance(r.stmt.value, ast.Constant) and r.stmt.value.value is None)]
+        it_txt = unparse(loops_[0].iter)
+        ok = bool(rets_) and all(g_.origin_text(r, r.stmt.value) == it_txt or unparse(r.stmt.value) == it_txt for r in rets_)
+        ctx.ob('C11.R3', f'{fi_.cls.name}.mk_keys returns the stored keys', ok,
+               f'{fi_.cls.name}.mk_keys returns the list of keys it stored the object under, entry by entry' if ok else
+               f'{fi_.cls.name}.mk_keys stores once per element of {it_txt} but returns {[unparse(r.stmt.value) for r in rets_]}: '
+               f'an object stored twice under one key gets one back reference, removal leaves a stale entry in the index',
+               fi=fi_)
     ri = mk.methods['_rm_indices']
     src = xsrc(ri)
     ok = 'self._object_ids' in src and 'rm_key' in src and any(isinstance(n, ast.Delete) for n in walk_no_nested(ri.node))
@@ -171,7 +190,16 @@ def run(ctx):  # noqa: C901, PLR0912, PLR0915
            '_rm_indices removes exactly the (index, key) pairs recorded in _object_ids[id(obj)] and drops the record',
            fi=ri)
     mi_src = xsrc(mi)
-    ctx.ob('C11.R3', '_mk_indices records back-references', 'self._object_ids[id(obj)]' in mi_src and '_ObjRef' in mi_src,
+    from engine.deps import Deps
+    dmi = Deps(mi.node)
+    recorded = False
+    for c in calls_in(mi.node):
+        if call_name(c) in ('extend', 'append') and isinstance(c.func, ast.Attribute) and c.args:
+            recv = unparse(c.func.value)
+            if 'self._object_ids' in recv and 'id(obj)' in recv and \
+                    {'call:_ObjRef', 'call:mk_keys'} <= dmi.sources(c.args[0]):
+                recorded = True
+    ctx.ob('C11.R3', '_mk_indices records back-references', recorded and '_ObjRef' in mi_src,
            '_mk_indices records an _ObjRef for every key it created', fi=mi)
     cl = mk.methods['clear']
     src = xsrc(cl)
